@@ -45,33 +45,33 @@ type Op struct {
 }
 
 const (
-	OpAddNode    = "addNode"
-	OpAddNodeDr  = "addNodeDraining"
-	OpUpdNode    = "updNode"
-	OpDrain      = "drain"
-	OpUndrain    = "undrain"
-	OpDecom      = "decom"
-	OpAddApp     = "addApp"
-	OpRmApp      = "rmApp"
-	OpAsk        = "ask"
-	OpUpdAsk     = "updAsk" // same key, new resources (pending or bound)
-	OpBound      = "bound"  // allocation reported as already bound by the RM
-	OpBindAsk    = "bindAsk" // existing pending ask reported as bound by the RM
-	OpRelease    = "release" // shim initiated STOPPED_BY_RM; key "" = all
-	OpForeign    = "foreign"
-	OpForeignUpd = "foreignUpd"
-	OpForeignRm  = "foreignRm"
-	OpConfirm    = "confirm"    // deliver queued confirmation Idx
-	OpDupConfirm = "dupConfirm" // deliver queued confirmation Idx but keep it queued
+	OpAddNode     = "addNode"
+	OpAddNodeDr   = "addNodeDraining"
+	OpUpdNode     = "updNode"
+	OpDrain       = "drain"
+	OpUndrain     = "undrain"
+	OpDecom       = "decom"
+	OpAddApp      = "addApp"
+	OpRmApp       = "rmApp"
+	OpAsk         = "ask"
+	OpUpdAsk      = "updAsk"  // same key, new resources (pending or bound)
+	OpBound       = "bound"   // allocation reported as already bound by the RM
+	OpBindAsk     = "bindAsk" // existing pending ask reported as bound by the RM
+	OpRelease     = "release" // shim initiated STOPPED_BY_RM; key "" = all
+	OpForeign     = "foreign"
+	OpForeignUpd  = "foreignUpd"
+	OpForeignRm   = "foreignRm"
+	OpConfirm     = "confirm"    // deliver queued confirmation Idx
+	OpDupConfirm  = "dupConfirm" // deliver queued confirmation Idx but keep it queued
 	OpDropConfirm = "dropConfirm"
-	OpReconfirm  = "reconfirm" // re-send an earlier delivered confirmation (duplicate, late)
-	OpSched      = "sched"
-	OpFirePH     = "firePH"
-	OpFireState  = "fireState"
-	OpReload     = "reload"
-	OpQuotaPre   = "quotaPreempt"
-	OpCleanup    = "cleanup"
-	OpEcho       = "echo" // re-send a bound allocation unchanged (idempotence)
+	OpReconfirm   = "reconfirm" // re-send an earlier delivered confirmation (duplicate, late)
+	OpSched       = "sched"
+	OpFirePH      = "firePH"
+	OpFireState   = "fireState"
+	OpReload      = "reload"
+	OpQuotaPre    = "quotaPreempt"
+	OpCleanup     = "cleanup"
+	OpEcho        = "echo" // re-send a bound allocation unchanged (idempotence)
 )
 
 func (o *Op) String() string {
